@@ -451,9 +451,15 @@ func (rs *RelationService) createTable(r *Relation, tableName string) error {
 	}
 
 	// refuse a column the catalog cannot describe before anything is changed
-	for _, fd := range r.Fields {
+	for i, fd := range r.Fields {
 		if fd.Len > math.MaxInt32 || fd.Len < math.MinInt32 {
 			return ErrIntOutOfRange
+		}
+		// ...and a column name used twice: rows are keyed by column name
+		for _, prev := range r.Fields[:i] {
+			if prev.Name == fd.Name {
+				return fmt.Errorf("%w: %s", ErrFieldAmbiguous, fd.Name)
+			}
 		}
 	}
 	// ...and a table or column name that makes a catalog row too large for a
@@ -882,6 +888,30 @@ func (rs *RelationService) scanRelation(fileOffset uint64, r *Relation, fields F
 	return results, nil
 }
 
+// checkColumns makes sure that every name is a column of the relation and
+// that no column is named twice. Rows are assembled in a map keyed by column
+// name: a name the relation does not have would drop its value in silence.
+func checkColumns(r *Relation, cols []string) error {
+	for i, col := range cols {
+		found := false
+		for _, fd := range r.Fields {
+			if fd.Name == col {
+				found = true
+				break
+			}
+		}
+		if !found {
+			return fmt.Errorf("%w: %s", ErrFieldNotFound, col)
+		}
+		for _, prev := range cols[:i] {
+			if prev == col {
+				return fmt.Errorf("%w: %s", ErrFieldAmbiguous, col)
+			}
+		}
+	}
+	return nil
+}
+
 func (rs *RelationService) Insert(tableName string, cols []string, vals []interface{}) (WALBatch, error) {
 	var walLogs WALBatch
 
@@ -914,6 +944,10 @@ func (rs *RelationService) Insert(tableName string, cols []string, vals []interf
 
 	if len(cols) != len(vals) {
 		return walLogs, ErrColCountMismatch
+	}
+
+	if err := checkColumns(schema, cols); err != nil {
+		return walLogs, err
 	}
 
 	for i, col := range cols {
@@ -974,6 +1008,10 @@ func (rs *RelationService) Update(tableName string, rowID uint32, cols []string,
 
 	r, err := rs.getRelationSchema(tableName)
 	if err != nil {
+		return walLogs, err
+	}
+
+	if err := checkColumns(r, cols); err != nil {
 		return walLogs, err
 	}
 
